@@ -188,6 +188,19 @@ def emit() -> dict[str, str]:
     ser_src = ast.unparse(_func(tree, "_serialize"))
     builds_free = "encoder.build_types[index]" in ser_src and ".cast(encoder.types[index])" in ser_src
 
+    # transient defaults: the plan keeps the field's default_factory and every decoder calls it per instance
+    plan_fn = _func(tree, "_serialization_plan")
+    keeps = False
+    for n in ast.walk(plan_fn):
+        if isinstance(n, ast.Call) and ast.unparse(n.func) == "_FieldPlan":
+            kw = {k.arg: ast.unparse(k.value) for k in n.keywords}
+            keeps = kw.get("default") == "f.default" and kw.get("default_factory") == "f.default_factory"
+    batch_src = ast.unparse(_func(tree, "deserialize_from_batch"))
+    conv_src = ast.unparse(_func(tree, "_convert_value_for_deserialization"))
+    compact_src = ast.unparse(_func(tree, "deserialize_compact"))
+    per_instance = (keeps and "kwargs[name] = factory()" in batch_src and "nested_kwargs[field_plan.name] = factory()" in conv_src
+                    and "kwargs[name] = cast('Callable[[], object]', factory)()" in compact_src)
+
     def b(x: bool) -> str:
         return "true" if x else "false"
 
@@ -223,6 +236,9 @@ def dictRecurses : Bool := {b(dict_rec)}
 def compactRefusesExplicit : Bool := {b(refuses)}
 /-- shape: `_serialize` builds a column whose type has a dictionary below a struct dictionary-free and casts it -/
 def buildsDictionaryFree : Bool := {b(builds_free)}
+/-- shape: a transient field's `default_factory` is kept in the cached plan and called once per decoded instance (top level,
+nested dataclass, compact codec): no two instances share a default object -/
+def transientFactoryPerInstance : Bool := {b(per_instance)}
 /-- shape: Enum lookup by name, then by value -/
 def enumFallbackByValue : Bool := {b(enum_fallback)}
 
